@@ -23,15 +23,35 @@ pub enum Case {
     /// a complete valid configuration with exactly one mandatory call left out (index into the
     /// canonical call list), the remaining calls rotated by `rot`: must give MissingParameters at solve
     MissingOne { solver: SolverKind, dynamic: bool, missing: u8, rot: u8 },
-    /// the derivative fails at call number k of configuration `cfg`
-    Fault { solver: SolverKind, cfg: u8, k: usize },
+    /// the derivative fails at call number k of configuration `cfg`; `payload`: 0 a private error type Marker(k),
+    /// 1 a boxed IVPError (what a derivative running a nested solve forwards with `?`), 2 a boxed std::fmt::Error
+    Fault {
+        solver: SolverKind,
+        cfg: u8,
+        k: usize,
+        #[serde(default)]
+        payload: u8,
+    },
 }
 
 const NSYM: u32 = 17;
 const T_A: f64 = 0.0;
 const T_B: f64 = 1.5;
 
+/// extended alphabet (generated and specially enumerated sequences only): spans shorter than the step bounds,
+/// step bounds longer than the span
+const NSYM_EXT: u8 = 23;
+
 fn sym_call(s: u8) -> Call {
+    match s {
+        17 => return Call::End(T_A + 0.005),
+        18 => return Call::Start(T_B - 0.005),
+        19 => return Call::MinDt(2.0),
+        20 => return Call::MaxDt(2.0),
+        21 => return Call::End(T_A + 9.313225746154785e-10), // 2^-30: sums with the other times stay exact
+        22 => return Call::Tol(1e-9),
+        _ => {}
+    }
     match s % NSYM as u8 {
         0 => Call::Tol(1e-4),
         1 => Call::Tol(0.0),
@@ -311,8 +331,20 @@ pub fn fault_reference_calls(solver: SolverKind, idx: u8) -> usize {
     n
 }
 
-fn run_fault(solver: SolverKind, idx: u8, k: usize, mut o: Obs) -> Outcome {
+fn run_fault(solver: SolverKind, idx: u8, k: usize, payload: u8, mut o: Obs) -> Outcome {
     o.label("fault");
+    // what the surfaced user error must display
+    let expect = match payload {
+        1 => {
+            o.label("fault-payload-library-error");
+            bacon_sci::ivp::IVPError::MinimumTimeDeltaExceeded.to_string()
+        }
+        2 => {
+            o.label("fault-payload-std-error");
+            std::fmt::Error.to_string()
+        }
+        _ => format!("Marker({k})"),
+    };
     o.label(solver.name());
     let (_, calls, cp, y0) = fault_setup(solver, idx);
     let rhs = |t: f64, y: &[f64], out: &mut [f64]| cp.f(t, y, out);
@@ -326,7 +358,7 @@ fn run_fault(solver: SolverKind, idx: u8, k: usize, mut o: Obs) -> Outcome {
     o.set("reference_calls", total);
     o.set("reference_points", reference.pts.len());
     // faulty run
-    let fprobe = Rc::new(RefCell::new(Probe { budget: 5_000_000, fail_at: Some(k), ..Default::default() }));
+    let fprobe = Rc::new(RefCell::new(Probe { budget: 5_000_000, fail_at: Some(k), fail_payload: payload, ..Default::default() }));
     let run = run_real(solver, false, cp.dim, &calls, &y0, fprobe.clone(), &rhs, 1_000_000, 5);
     o.set("points_before_error", run.pts.len());
     o.nontrivial = true;
@@ -339,12 +371,12 @@ fn run_fault(solver: SolverKind, idx: u8, k: usize, mut o: Obs) -> Outcome {
     }
     match &run.end {
         End::Failed(ErrKind::UserError(msg)) => {
-            if !msg.contains(&format!("Marker({k})")) {
-                return o.fail(format!("the derivative failed at call {k} with Marker({k}), but the iterator reported a user error displaying {msg:?}"));
+            if !msg.contains(&expect) {
+                return o.fail(format!("the derivative failed at call {k} with an error displaying {expect:?}, but the iterator reported a user error displaying {msg:?}"));
             }
         }
         End::Panic(m) => return o.fail(format!("panicked: {m}")),
-        other => return o.fail(format!("the derivative failed at call {k} of {total}, but the iterator ended with {other:?} instead of Err(UserError)")),
+        other => return o.fail(format!("the derivative failed at call {k} of {total} (payload {expect:?}), but the iterator ended with {other:?} instead of Err(UserError) carrying it")),
     }
     // bit-identical prefix
     if run.pts.len() > reference.pts.len() {
@@ -364,9 +396,9 @@ fn run_fault(solver: SolverKind, idx: u8, k: usize, mut o: Obs) -> Outcome {
         return o.fail(format!("the derivative was called {} more time(s) after it had failed at call {k}", after - k));
     }
     // collect_vec on a fresh identical run
-    let cprobe = Rc::new(RefCell::new(Probe { budget: 5_000_000, fail_at: Some(k), ..Default::default() }));
+    let cprobe = Rc::new(RefCell::new(Probe { budget: 5_000_000, fail_at: Some(k), fail_payload: payload, ..Default::default() }));
     match collect_real(solver, false, cp.dim, &calls, &y0, cprobe, &rhs) {
-        Ok(Err(ErrKind::UserError(msg))) if msg.contains(&format!("Marker({k})")) => {}
+        Ok(Err(ErrKind::UserError(msg))) if msg.contains(&expect) => {}
         other => return o.fail(format!("collect_vec with the derivative failing at call {k} returned {other:?}")),
     }
     o.pass()
@@ -398,7 +430,7 @@ pub fn run_case(case: &Case) -> Outcome {
                 Err(m) => o.fail(m),
             }
         }
-        Case::Fault { solver, cfg, k } => run_fault(*solver, *cfg, *k, o),
+        Case::Fault { solver, cfg, k, payload } => run_fault(*solver, *cfg, *k, *payload, o),
         Case::MissingOne { solver, dynamic, missing, rot } => {
             o.label("missing-one");
             o.label(solver.name());
@@ -450,7 +482,7 @@ pub fn misuse(solver: SolverKind, dynamic_type: bool) -> Result<ErrKind, String>
 }
 
 fn strategy(_t: Tier) -> BoxedStrategy<Case> {
-    let long = (proptest::sample::select(&ALL_SOLVERS[..]), any::<bool>(), proptest::collection::vec(0u8..NSYM as u8, 5..=12), any::<bool>()).prop_map(|(solver, dynamic, seq, complete)| Case::BuilderSeq { solver, dynamic, seq, complete });
+    let long = (proptest::sample::select(&ALL_SOLVERS[..]), any::<bool>(), proptest::collection::vec(prop_oneof![4 => 0u8..NSYM as u8, 1 => NSYM as u8..NSYM_EXT], 5..=12), any::<bool>()).prop_map(|(solver, dynamic, seq, complete)| Case::BuilderSeq { solver, dynamic, seq, complete });
     long.boxed()
 }
 
@@ -483,6 +515,25 @@ pub fn run(opts: &Opts) -> i32 {
                 }
             }
         }
+        // complete valid configurations whose span is shorter than the minimum step / whose step bounds exceed the
+        // span (extended alphabet): base configuration, one or two extended calls appended, every rotation
+        for dynamic in [false, true] {
+            for maxdt in [3u8, 4] {
+                for e1 in NSYM as u8..NSYM_EXT {
+                    for e2 in (NSYM as u8 - 1)..NSYM_EXT {
+                        let mut seq = vec![0u8, maxdt, 7, 11, 14, 15, 16, e1];
+                        if e2 >= NSYM as u8 {
+                            seq.push(e2);
+                        }
+                        for rot in 0..seq.len() {
+                            let mut r = seq.clone();
+                            r.rotate_left(rot);
+                            spec.enumerated.push(Case::BuilderSeq { solver, dynamic, seq: r, complete: false });
+                        }
+                    }
+                }
+            }
+        }
         spec.enumerated.push(Case::DimMisuse { solver, dynamic_type: false });
         spec.enumerated.push(Case::DimMisuse { solver, dynamic_type: true });
         // every fault position k of every configuration (up to 400 per configuration, beyond that log-spaced)
@@ -497,13 +548,20 @@ pub fn run(opts: &Opts) -> i32 {
             ks.push(n);
             ks.dedup();
             for k in ks {
-                spec.enumerated.push(Case::Fault { solver, cfg, k });
+                spec.enumerated.push(Case::Fault { solver, cfg, k, payload: 0 });
+                // other payload types: the first 80 call numbers (start-up, first multistep steps, first rejections)
+                if k <= 80 {
+                    spec.enumerated.push(Case::Fault { solver, cfg, k, payload: 1 });
+                    if k % 4 == 1 {
+                        spec.enumerated.push(Case::Fault { solver, cfg, k, payload: 2 });
+                    }
+                }
             }
         }
     }
     spec.cases = opts.tier.pick(20_000, 300_000);
     spec.exhaustive = Some(format!("every builder-call sequence of length <= {maxlen} over a 17-symbol alphabet (valid/zero/negative tolerance, small/large/zero/negative maximum and minimum step, two start and two end times, conditions, derivative) x 7 builders x static/dynamic x with/without completion; every fault position k <= min(N, 400) of 10 configurations per solver"));
-    spec.rule = "enumerated: all builder-call sequences of the stated length over the 17-symbol alphabet followed by solve, with and without completion by the missing mandatory calls, for the 7 builders in static and dynamic dimension, compared call by call with a reference model of the builder contract (dedicated error kinds, min/max adjustment, Euler's running average, MissingParameters at solve); sequences that build are solved on y' = 0 and y' = -y and must give a C01-valid path within the model's effective step bounds; dimension misuse; every complete configuration with exactly one mandatory call left out (all rotations of the remaining calls) must report MissingParameters at solve; for 10 fixed configurations per solver the derivative fails with Marker(k) at every call number k of the fault-free run (all k <= 400, log-spaced beyond): the points before the error are a bit-identical prefix, exactly one Err(UserError(Marker(k))) item, then None five times with no further derivative calls, and collect_vec returns the same error. Generated: longer sequences (5-12 calls). Non-trivial = sequences that build after an overwrite or a min/max crossing, every fault case, dimension misuse. Distinct = distinct case JSON.".into();
+    spec.rule = "enumerated: all builder-call sequences of the stated length over the 17-symbol alphabet followed by solve, with and without completion by the missing mandatory calls, for the 7 builders in static and dynamic dimension, compared call by call with a reference model of the builder contract (dedicated error kinds, min/max adjustment, Euler's running average, MissingParameters at solve); sequences that build are solved on y' = 0 and y' = -y and must give a C01-valid path within the model's effective step bounds; dimension misuse; every complete configuration with exactly one mandatory call left out (all rotations of the remaining calls) must report MissingParameters at solve; for 10 fixed configurations per solver the derivative fails with a private error Marker(k) at every call number k of the fault-free run (all k <= 400, log-spaced beyond; for k <= 80 also with a boxed library error IVPError::MinimumTimeDeltaExceeded and a boxed std::fmt::Error as payload): the points before the error are a bit-identical prefix, exactly one Err(UserError(payload)) item displaying that payload, then None five times with no further derivative calls, and collect_vec returns the same error. Generated: longer sequences (5-12 calls). Non-trivial = sequences that build after an overwrite or a min/max crossing, every fault case, dimension misuse. Distinct = distinct case JSON.".into();
     spec.assumptions = vec!["reference model of the builder contract as documented in the rustdoc of with_maximum_dt / with_minimum_dt and observed error kinds".into()];
     spec.max_shrink_iters = 2000;
     run_spec(spec, opts)
